@@ -237,9 +237,9 @@ def run(ctx):
         inv, scn, line, detail = v[1], v[2], v[3], v[4]
         pattern = detail[0] if isinstance(detail, list) and detail and isinstance(detail[0], str) else "-"
         flagged.setdefault(scn, set()).add(inv)
-        if (inv, scn) in seen_v:
+        if (inv, scn, pattern) in seen_v:
             continue
-        seen_v.add((inv, scn))
+        seen_v.add((inv, scn, pattern))
         s = by_id.get(scn, {})
         ctx.add_violation({"inv": inv, "pattern": pattern, "fn": s.get("fn"), "scn": scn, "line": line, "origin": s.get("origin", "?")},
                           replay_obj={"scenario": s, "trace": line_of.get(scn)})
@@ -283,7 +283,7 @@ def round_level(ctx, binp, dev_sat, dev_rng):
         if shared and places_all.get(json.dumps([rnd["offers"], rnd["descs"], rnd["exec"]], sort_keys=True)):
             rnd["deployments"] = 2
         cat.append(rnd)
-    bound = 420 if quick else 3000
+    bound = 600 if quick else 3000
 
     def run_real(cat_):
         scs = [round_scenario(100 + i, rnd) for i, rnd in enumerate(cat_)]
@@ -368,9 +368,9 @@ def round_level(ctx, binp, dev_sat, dev_rng):
         inv, scn, line, detail = v[1], v[2], v[3], v[4]
         pattern = detail[0] if isinstance(detail, list) and detail and isinstance(detail[0], str) else "-"
         flagged.add(inv)
-        if (inv, scn) in seen:
+        if (inv, scn, pattern) in seen:
             continue
-        seen.add((inv, scn))
+        seen.add((inv, scn, pattern))
         s = by_id.get(scn, {})
         ctx.add_violation({"inv": inv, "pattern": pattern, "fn": "round", "scn": scn, "line": line, "origin": "catalogue"},
                           replay_obj={"scenario": s, "trace": [x for x in tlines if x["scn"] == scn]})
@@ -468,8 +468,11 @@ def project_rounds(lines, by_id):
             elif ev == "MAccept" and state == "open":
                 tasks = []
                 for t in ln["tasks"]:
-                    tasks.append({"desc": t.get("tag") or m["classes"].get(t["class"], t["class"]), "cpu": int(round(t["cpu"] * 1000)),
-                                  "mem": int(round(t["mem"])), "ports": t["ports"]})
+                    tk = {"desc": t.get("tag") or m["classes"].get(t["class"], t["class"]), "cpu": int(round(t["cpu"] * 1000)),
+                          "mem": int(round(t["mem"])), "ports": t["ports"]}
+                    if t.get("control"):
+                        tk["control"] = int(t["control"])
+                    tasks.append(tk)
                 for oid in ln["offers"]:
                     rl.append({"ev": "Accept", "scn": scn, "offer": oid, "tasks": tasks})
             elif ev == "MDecline" and state == "open":
